@@ -83,6 +83,39 @@ def _files_below_4g(it, env):
     it.assumptions_used.add("input assumption: every payload file / cache entry is shorter than 2**32 bytes (the format's 4-byte length field)")
 
 
+def _slot_calls(it, mark):
+    return [t for t in it.trace[mark:] if t[0] == "call" and t[1] == "CachePartition.add_cache_slot"]
+
+
+def _payload_iteration(it, env, mark):
+    """One arbitrary input `uri,path` that is processed without an exception is added EXACTLY once, as (uri, content of the file)."""
+    import z3
+    calls = _slot_calls(it, mark)
+    if len(calls) != 1:
+        return [("input_added_exactly_once", False)]
+    a = calls[0][2]
+    args = env.lookup("args")
+    uri, path = it.iterate(args, unpack=2)
+    content = it.fs.read_bin(it.stubs.path_term(it, path))
+    return [("input_added_exactly_once", True), ("added_with_its_uri_and_file_content", z3.And(a["uri"].e == uri.e, a["data"].e == content))]
+
+
+def _merge_iteration(it, env, mark):
+    """One arbitrary entry (k, v) of the merged file: skipped iff the key is empty (padding); otherwise added exactly once as (k, v)."""
+    import z3
+    calls = _slot_calls(it, mark)
+    k = env.lookup("k")
+    nonempty = z3.Length(k.e) > 0
+    if not calls:
+        return [("only_padding_entries_are_skipped", z3.Not(nonempty))]
+    if len(calls) != 1:
+        return [("entry_added_exactly_once", False)]
+    a = calls[0][2]
+    v = env.lookup("cache_dict").value_at(it, k)
+    return [("only_padding_entries_are_skipped", nonempty), ("entry_added_exactly_once", True),
+            ("added_with_its_key_and_value", z3.And(a["uri"].e == k.e, a["data"].e == v.e))]
+
+
 c = Contract(F, "CacheFromPayloads.fill_cache_from_payloads", ["C10"])
 c.param("cache", CP)
 c.param("input", SeqStr())
@@ -91,7 +124,7 @@ c.setup = _files_below_4g
 c.returns("invariant_kept", INV_CACHE)
 c.raises("ValueError")
 c.raises("FileNotFoundError")
-c.loops(cache=CP_INV)
+c.loops(cache=CP_INV, body_check=_payload_iteration)
 c.modifies("cache.first_slot", "cache.cache_data", "cache.uris")
 
 c = Contract(F, "CacheMerge.merge_cache_files", ["C10"])
@@ -131,7 +164,7 @@ c.requires("inv", INV)
 c.setup = _cache_file_setup
 c.returns("invariant_kept", INV)
 c.raises("ValueError")
-c.loops(**{"self": CP_INV})
+c.loops(body_check=_merge_iteration, **{"self": CP_INV})
 c.modifies("self.first_slot", "self.cache_data", "self.uris")
 
 ASSUMPTIONS = [L_DIV]
